@@ -7,6 +7,8 @@ import WebAuthnModel.Basic.Base64Url
 import WebAuthnModel.Spec.Cose
 import WebAuthnModel.Model.Ceremony
 import WebAuthnModel.Spec.History
+import WebAuthnModel.Model.Tpm
+import WebAuthnModel.Model.Fido
 /-
   wadriver: line-protocol interpreter of the model.  One JSON object per input line, one JSON
   object per output line; while an op runs, `{"ask":…}` lines may be written and are answered by
@@ -101,6 +103,32 @@ def handlePure (op : String) (j : Json) : Except String Json := do
       return Json.mkObj [("ok", true), ("fmt", hex ao.fmt), ("authData", hex ao.authData), ("rest", hex rest),
         ("stmtKeys", Json.arr ((ao.stmt.map (fun e => hex e.1)).toArray)),
         ("alg", Att.getAlgorithm ao.stmt), ("sig", hex (Att.getSignature ao.stmt))]
+  | "vendorId" =>
+    match Tpm.unmarshalVendorId (← getHex j "s") with
+    | some v => return Json.mkObj [("ok", true), ("vid", hex v)]
+    | none => return Json.mkObj [("ok", false)]
+  | "hwDetails" =>
+    let sans ← (← getArr j "sans").toList.mapM fun e => do
+      match e.getObjVal? "names" with
+      | .ok (Json.arr ns) =>
+        let names ← ns.toList.mapM fun n => do
+          let rdn ← match n.getObjVal? "rdn" with
+            | .ok (Json.arr as) => do
+              let attrs ← as.toList.mapM fun a => do
+                return (⟨← parseOid (← a.getObjVal? "oid"), ← getBool a "isString", ← getHex a "value"⟩ : Tpm.Attr)
+              pure (some attrs)
+            | _ => pure none
+          return (⟨← getNat n "cls", ← getNat n "tag", rdn⟩ : Tpm.GeneralName)
+        return Tpm.SanExt.names names
+      | _ => return Tpm.SanExt.bad
+    match Tpm.detailsFromSan sans with
+    | some d => return Json.mkObj [("ok", true), ("vendorId", hex d.vendorId), ("vendorName", d.vendorName), ("part", hex d.partNumber), ("fw", hex d.firmwareVersion)]
+    | none => return Json.mkObj [("ok", false)]
+  | "aaguid.string" => return Json.mkObj [("s", hex (Fido.toString (← getHex j "a")))]
+  | "aaguid.parse" =>
+    match Fido.parse (← getHex j "s") with
+    | some a => return Json.mkObj [("ok", true), ("a", hex a)]
+    | none => return Json.mkObj [("ok", false)]
   | "alg.tables" =>
     let a ← getInt j "alg"
     return Json.mkObj [("hash", Cose.algHash a), ("x509", Cose.algX509 a),
@@ -291,6 +319,18 @@ def handleProg (op : String) (j : Json) : Except String (Option (Prog Json)) := 
   | "register" => return some (← doRegister j)
   | "attest" => return some (← doAttest j)
   | "history" => return some (← doHistory j)
+  | "blob" =>
+    let raw ← getHex j "raw"
+    let pools ← (← getArr j "pools").toList.mapM fun p => match p with
+      | Json.str "default" => pure Fido.Pool.default
+      | Json.str "nil" => pure Fido.Pool.nilPool
+      | other => match other.getNat? with
+        | .ok n => pure (Fido.Pool.custom n)
+        | .error e => throw e
+    return some (do
+      match ← Fido.unmarshalBlob raw pools with
+      | some payload => pure (Json.mkObj [("ok", true), ("payload", hex payload)])
+      | none => pure (Json.mkObj [("ok", false)]))
   | "config" =>
     let opts ← parseVerifyOpts j
     let cfg := getVerifyConfig opts
